@@ -52,6 +52,45 @@ theorem nodup_uniqAux (acc l : List α) (h : acc.Nodup) : (uniqAux acc l).Nodup 
 
 theorem nodup_uniq (l : List α) : (uniq l).Nodup := nodup_uniqAux [] l (by simp)
 
+theorem uniqAux_eq_aux (n : Nat) : ∀ (l : List α), l.length ≤ n → ∀ acc : List α,
+    uniqAux acc l = acc ++ uniqAux [] (l.filter (fun x => decide (x ∉ acc))) := by
+  induction n with
+  | zero =>
+    intro l hl acc
+    have : l = [] := List.length_eq_zero_iff.1 (Nat.le_zero.1 hl)
+    subst this; simp [uniqAux]
+  | succ n ih =>
+    intro l hl acc
+    cases l with
+    | nil => simp [uniqAux]
+    | cons x t =>
+      have ht : t.length ≤ n := by simp at hl; omega
+      by_cases hx : x ∈ acc
+      · simp only [uniqAux, hx, ↓reduceIte]
+        rw [ih t ht acc]
+        simp [hx]
+      · simp only [uniqAux, hx, ↓reduceIte]
+        rw [ih t ht (acc ++ [x])]
+        simp only [List.filter_cons, hx, not_false_eq_true, decide_true, ↓reduceIte, uniqAux, List.not_mem_nil,
+          List.nil_append]
+        rw [ih _ (Nat.le_trans (List.length_filter_le _ _) ht) [x]]
+        simp only [List.append_assoc, List.filter_filter]
+        congr 3
+        apply List.filter_congr
+        intro y _
+        simp only [List.mem_append, List.mem_singleton, not_or, List.mem_cons, List.not_mem_nil, or_false]
+        by_cases h1 : y ∈ acc <;> by_cases h2 : y = x <;> simp [h1, h2]
+
+theorem uniqAux_eq (acc l : List α) :
+    uniqAux acc l = acc ++ uniqAux [] (l.filter (fun x => decide (x ∉ acc))) :=
+  uniqAux_eq_aux l.length l (Nat.le_refl _) acc
+
+theorem uniq_cons (x : α) (l : List α) : uniq (x :: l) = x :: uniq (l.filter (· ≠ x)) := by
+  unfold uniq
+  simp only [uniqAux, List.not_mem_nil, ↓reduceIte, List.nil_append]
+  rw [uniqAux_eq [x] l]
+  simp
+
 /-- for duplicate-free lists: as many elements of `a` lie in `b` as `b` has elements iff `b ⊆ a` -/
 theorem length_filter_mem_eq_iff {a b : List α} (ha : a.Nodup) (hb : b.Nodup) :
     (a.filter (fun x => decide (x ∈ b))).length = b.length ↔ ∀ x ∈ b, x ∈ a := by
